@@ -242,7 +242,7 @@ func runC07Tunnel(i int, tn c07Tunnel, c c07Case, o gwOpts, mkTarget func(user s
 		close(c07Stalled) // the other tunnels of the case start now
 		select {
 		case <-c07OthersDone:
-		case <-time.After(20 * time.Second):
+		case <-time.After(75 * time.Second): // longer than the others wait for anything (30 s): a tunnel held up by this one fails first
 		}
 		ws.Pause(false)
 		// let the backlog drain before the script goes on (a host that hangs up with megabytes still queued towards the
